@@ -39,6 +39,13 @@ MUTANTS = [
     {"name": "revert-b56443d-mode-precedence", "revert": "b56443d", "props": ["C05"]},
     {"name": "revert-dd09bd5-dependency-names", "revert": "dd09bd5", "props": ["C05"]},
     {"name": "c05-no_output-value-left-in-mapping", "props": ["C05"], "edits": [{"file": "utype/parser/cls.py", "old": "                if field.is_no_output(values[key], options=options):\n                    values.pop(key)", "new": "                if field.is_no_output(values[key], options=options) and value is not None:\n                    values.pop(key)"}]},
+    {"name": "revert-95b1053-force_error", "revert": "95b1053", "props": ["C07"]},
+    {"name": "revert-a07af7c-setitem-addition-raw", "revert": "a07af7c", "props": ["C07"]},
+    {"name": "revert-f5bbc74-setdefault-ior", "revert": "f5bbc74", "props": ["C07"]},
+    {"name": "revert-64743ac-popitem", "revert": "64743ac", "props": ["C07"]},
+    {"name": "revert-139f76d-copy-shares-dict", "revert": "139f76d", "props": ["C07"]},
+    {"name": "revert-b237226-stale-attribute", "revert": "b237226", "props": ["C07"]},
+    {"name": "c07-setter-skips-parse-for-no_output", "props": ["C07"], "edits": [{"file": "utype/schema.py", "old": "        context = self.__parser__.make_context(force_error=True)\n        value = field.parse_value(value, context=context)\n\n        if field.property:", "new": "        context = self.__parser__.make_context(force_error=True)\n        if field.no_output is not True:\n            value = field.parse_value(value, context=context)\n\n        if field.property:"}]},
     # ---- C01 ------------------------------------------------------------------------------
     {"name": "c01-seq-first-element-unconverted", "props": ["C01"], "edits": [{"file": R, "old": """                try:
                     result.append(
